@@ -70,4 +70,22 @@ Section Returns.
       documented counterexample. *)
   Definition ppo_flat_gae (cols : list (list gstep)) (gamma lambda : F) : list F :=
     gae_adv (concat cols) gamma lambda.
+
+  (** Model rollout of the MR.Q encoder loss (blox/embedding/model_based_encoder.py, model_based_encoder_loss): the
+      prediction error of step t of one sub-trajectory enters weighted by prev_not_done_t, the product of
+      (1 - terminated) over the earlier steps; a step is (error, not_done). *)
+  Fixpoint masked_rollout (mask : F) (steps : list (F * F)) : F :=
+    match steps with
+    | [] => nzero
+    | (l, nd) :: rest => mask * l + masked_rollout (nd * mask) rest
+    end.
+  Definition rollout_loss (steps : list (F * F)) : F := masked_rollout nunit steps.
+  (** mean over the batch of sub-trajectories *)
+  Definition rollout_batch_loss (batch : list (list (F * F))) : F := nmean (map rollout_loss batch).
+  (** the variant whose mask is not cumulative (prev_not_done = not_done[:, t]) *)
+  Fixpoint rollout_noncum (mask : F) (steps : list (F * F)) : F :=
+    match steps with
+    | [] => nzero
+    | (l, nd) :: rest => mask * l + rollout_noncum nd rest
+    end.
 End Returns.
